@@ -309,6 +309,14 @@ def gen_core(ctx):
     for label, kw, count, plain in plan:
         for _ in range(count):
             out.append((label, G.make_instance(rng, **kw), plain))
+    # three generations (grandparents -> parent -> child, also with a sibling), relationships registered top-down,
+    # bottom-up and mixed; individuals are re-indexed at random below
+    for order in ("top-down", "bottom-up", "mixed"):
+        for _ in range(ctx.n(2, 10)):
+            out.append(("threegen", G.make_threegen_instance(rng, sibling=False, order=order), False))
+    for order in (("bottom-up",) if ctx.quick else ("top-down", "bottom-up", "mixed")):
+        for _ in range(ctx.n(1, 2)):
+            out.append(("threegen-sib", G.make_threegen_instance(rng, sibling=True, order=order), False))
     # value dimensions the main classes do not reach: large / odd qualities (incl. the >= 256 code path), large
     # recombination costs, hard (zero) priors, 7-8 active reads, positions=None, the empty read set
     for _ in range(ctx.n(10, 150)):
